@@ -151,10 +151,12 @@ def value_at(value, nspec, path):
                     return ('key-of-class', cur)
                 if key in args:
                     nxt = args[key]
+                elif key in (args.get('_yatiml_extra') or {}):
+                    # (also a dashed key next to its underscored twin: it
+                    # arrived as an extra attribute, plain data)
+                    nxt = args['_yatiml_extra'][key]
                 elif key.replace('-', '_') in args:
                     nxt = args[key.replace('-', '_')]
-                elif '_yatiml_extra' in args and key in args['_yatiml_extra']:
-                    nxt = args['_yatiml_extra'][key]
                 else:
                     raise NoWalk()
             elif isinstance(cur, dict):
